@@ -235,12 +235,14 @@ pub struct Seed {
     pub aux: usize,
     /// Offsets of 64-bit fields worth boundary values of their own.
     pub wide_fields: Vec<usize>,
+    /// Offsets of 32-bit fields that sit at unaligned positions (e.g. inside an RLE literal run).
+    pub u32_fields: Vec<usize>,
     pub crypt: Vec<CryptRegion>,
 }
 
 impl Seed {
     pub fn new(label: impl Into<String>, bytes: Vec<u8>, layout: Layout) -> Seed {
-        Seed { label: label.into(), bytes, layout, aux: 0, wide_fields: vec![], crypt: vec![] }
+        Seed { label: label.into(), bytes, layout, aux: 0, wide_fields: vec![], u32_fields: vec![], crypt: vec![] }
     }
     pub fn fixed(label: impl Into<String>, bytes: Vec<u8>, header_len: usize) -> Seed {
         let n = header_len.min(bytes.len());
@@ -665,6 +667,16 @@ pub fn field_mutants(seed: &Seed, offsets: &[usize]) -> Vec<Mut> {
             for (v, t) in v16 {
                 if v != cur && !(fs > 0xFFFF && t.starts_with("filesize")) {
                     out.push(Mut::Field { off: o, width: 2, val: v, tag: t });
+                }
+            }
+        }
+    }
+    for &o in &seed.u32_fields {
+        if o + 4 <= seed.bytes.len() && !(o % 4 == 0 && offsets.binary_search(&o).is_ok()) {
+            let cur = get(&seed.bytes, o, 4);
+            for (v, t) in v32 {
+                if v != cur {
+                    out.push(Mut::Field { off: o, width: 4, val: v, tag: t });
                 }
             }
         }
@@ -1283,6 +1295,88 @@ pub fn plan(formats: &[FormatDef], seeds: &[Vec<Seed>], thorough: bool, havoc_qu
     out
 }
 
+// ------------------------------------------------- seeds, out of process ----
+
+fn seed_to_json(s: &Seed) -> Value {
+    let layout = match &s.layout {
+        Layout::Fixed { regions } => json!({"fixed": regions}),
+        Layout::Chunked { start, nested, payload_scan } => json!({"chunked": {"start": start, "scan": payload_scan, "nested": nested.iter().map(|(m, l)| json!([m.to_vec(), l])).collect::<Vec<_>>()}}),
+    };
+    json!({"label": s.label, "bytes": vh_common::hex(&s.bytes), "layout": layout, "aux": s.aux, "wide": s.wide_fields, "u32f": s.u32_fields,
+           "crypt": s.crypt.iter().map(|c| json!([c.start, c.len, c.key])).collect::<Vec<_>>()})
+}
+
+fn seed_from_json(v: &Value) -> Option<Seed> {
+    let us = |x: &Value| x.as_u64().unwrap_or(0) as usize;
+    let layout = if let Some(r) = v["layout"]["fixed"].as_array() {
+        Layout::Fixed { regions: r.iter().map(|p| (us(&p[0]), us(&p[1]))).collect() }
+    } else {
+        let c = &v["layout"]["chunked"];
+        let nested = c["nested"].as_array().map(|a| {
+            a.iter().map(|e| {
+                let mut m = [0u8; 4];
+                for (i, b) in e[0].as_array().into_iter().flatten().take(4).enumerate() {
+                    m[i] = b.as_u64().unwrap_or(0) as u8;
+                }
+                (m, us(&e[1]))
+            }).collect()
+        }).unwrap_or_default();
+        Layout::Chunked { start: us(&c["start"]), nested, payload_scan: us(&c["scan"]) }
+    };
+    Some(Seed {
+        label: v["label"].as_str()?.to_string(),
+        bytes: vh_common::unhex(v["bytes"].as_str()?),
+        layout,
+        aux: us(&v["aux"]),
+        wide_fields: v["wide"].as_array().map(|a| a.iter().map(us).collect()).unwrap_or_default(),
+        u32_fields: v["u32f"].as_array().map(|a| a.iter().map(us).collect()).unwrap_or_default(),
+        crypt: v["crypt"].as_array().map(|a| a.iter().map(|c| CryptRegion { start: us(&c[0]), len: us(&c[1]), key: c[2].as_u64().unwrap_or(0) as u32 }).collect()).unwrap_or_default(),
+    })
+}
+
+/// Seeds are produced by the library's own writers, some of which start thread pools (rayon inside the image / DXT
+/// codecs). A process that has threads must not fork workers (the children would wait forever for pool threads that
+/// do not exist in them), so the writers run in a child of their own and only the bytes come back.
+fn seeds_in_child(f: &FormatDef, ctx: &SeedCtx) -> Result<Vec<Seed>, String> {
+    let mut fds = [0i32; 2];
+    if unsafe { sys::pipe(fds.as_mut_ptr()) } != 0 {
+        return Err("pipe failed".into());
+    }
+    let pid = unsafe { sys::fork() };
+    if pid < 0 {
+        return Err("fork failed".into());
+    }
+    if pid == 0 {
+        unsafe {
+            sys::prctl(sys::PR_SET_PDEATHSIG, sys::SIGKILL as u64);
+            sys::close(fds[0]);
+        }
+        let out = match trap(|| (f.seeds)(ctx)) {
+            Ok(v) => json!({"ok": v.iter().map(seed_to_json).collect::<Vec<_>>()}),
+            Err(p) => json!({"err": format!("seed writer panicked: {} @ {}", p.msg, p.func)}),
+        };
+        raw_write(fds[1], out.to_string().as_bytes());
+        unsafe { sys::_exit(0) }
+    }
+    unsafe { sys::close(fds[1]) };
+    let mut buf = Vec::new();
+    let mut tmp = [0u8; 65536];
+    loop {
+        let n = unsafe { sys::read(fds[0], tmp.as_mut_ptr() as *mut _, tmp.len()) };
+        if n > 0 { buf.extend_from_slice(&tmp[..n as usize]) } else { break }
+    }
+    let mut status = 0i32;
+    unsafe {
+        sys::close(fds[0]);
+        sys::waitpid(pid, &mut status, 0);
+    }
+    let v: Value = serde_json::from_slice(&buf).map_err(|e| format!("seed child died (status {status}): {e}"))?;
+    if let Some(e) = v["err"].as_str() {
+        return Err(e.to_string());
+    }
+    Ok(v["ok"].as_array().map(|a| a.iter().filter_map(seed_from_json).collect()).unwrap_or_default())
+}
+
 /// Standard main loop of a C05 worker.
 pub fn worker_main(formats: Vec<FormatDef>, havoc_quick: u64, havoc_thorough: u64) {
     // no default-hook / OOM-handler backtraces in the children (the banner line is what classifies a death)
@@ -1300,7 +1394,7 @@ pub fn worker_main(formats: Vec<FormatDef>, havoc_quick: u64, havoc_thorough: u6
     let mut seeds: Vec<Vec<Seed>> = Vec::new();
     let mut seed_problems: Vec<String> = Vec::new();
     for f in &formats {
-        match trap(|| (f.seeds)(&ctx)) {
+        match seeds_in_child(f, &ctx) {
             Ok(mut v) => {
                 for s in &mut v {
                     s.bytes.truncate(MAX_INPUT);
@@ -1308,8 +1402,8 @@ pub fn worker_main(formats: Vec<FormatDef>, havoc_quick: u64, havoc_thorough: u6
                 v.retain(|s| !s.bytes.is_empty());
                 seeds.push(v)
             }
-            Err(p) => {
-                seed_problems.push(format!("{}: seed writer panicked: {} @ {}", f.name, p.msg, p.func));
+            Err(why) => {
+                seed_problems.push(format!("{}: {}", f.name, why));
                 seeds.push(vec![]);
             }
         }
